@@ -51,6 +51,7 @@ typedef struct CO_SDO_SEG_T {
     uint32_t  Size;              /*!< Size of object entry                   */
     uint32_t  Num;               /*!< Number of transfered bytes             */
     uint8_t   TBit;              /*!< Segment toggle bit                     */
+    uint8_t   Dir;               /*!< Direction: CO_SDO_RD or CO_SDO_WR      */
 
 } CO_SDO_SEG;
 
